@@ -2,7 +2,7 @@
 (***************************************************************************)
 (* Acceptance of recorded executions of manager.Manager against scripted   *)
 (* gNMI servers (C13): every callback (target, kind, update id), the       *)
-(* inv/ret of Add / Remove / Reconnect issued by one controller goroutine, *)
+(* inv/ret of Add / Remove / Reconnect issued by the controller goroutines, *)
 (* in real-time order.  Per target the callback word must follow           *)
 (* ManagerDisc; a callback is only allowed between the invocation of a     *)
 (* successful Add and the return of the Remove that ends it; Add of a      *)
@@ -12,34 +12,64 @@
 (***************************************************************************)
 EXTENDS ManagerDisc, Sequences, TLC, Json, IOUtils
 
-VARIABLES l, active, disc, pend    \* pend: the controller's call in progress
+(* Calls come from controller goroutines ("c": c1 is the script, c2 races an *)
+(* Add against a Remove of the same target).  An Add that overlaps a Remove  *)
+(* of its target is refused if it takes effect first and succeeds if it takes *)
+(* effect second; in that case the manager runs it only after the Remove has  *)
+(* wound the old session down: every callback of the old session precedes     *)
+(* every callback of the new one.  Where the one ends and the other begins is *)
+(* not observable, so it is inferred (TSwitch, a silent step).                *)
+VARIABLES l, active, disc, pend,   \* pend: controller |-> its call in progress
+          inc                      \* target |-> number of its current incarnation (a new one per successful Add)
 
 Trace == ndJsonDeserialize(IOEnv.TRACE)
-tvars == <<l, active, disc, pend>>
+tvars == <<l, active, disc, pend, inc>>
 Ev == Trace[l]
 St(name) == l <= Len(Trace) /\ Trace[l].ev = name /\ l' = l + 1
 
 Put(f, k, v) == [x \in DOMAIN f \cup {k} |-> IF x = k THEN v ELSE f[x]]
-None == [op |-> "none", t |-> ""]
+Get(f, k) == IF k \in DOMAIN f THEN f[k] ELSE 0
+Busy(c) == c \in DOMAIN pend /\ pend[c].op # "none"
+None == [op |-> "none", t |-> "", was |-> FALSE, rem |-> FALSE, sw |-> FALSE, inc0 |-> 0]
 
-TInit == l = 1 /\ active = {} /\ disc = <<>> /\ pend = None /\ TLCSet(1, 1)
+TInit == l = 1 /\ active = {} /\ disc = <<>> /\ pend = <<>> /\ inc = <<>> /\ TLCSet(1, 1)
 
-TReset == St("reset") /\ active' = {} /\ disc' = <<>> /\ pend' = None
+TReset == St("reset") /\ active' = {} /\ disc' = <<>> /\ pend' = <<>> /\ inc' = <<>>
 
 (* callbacks may start as soon as Add has been invoked                      *)
 TInv ==
-    /\ St("inv") /\ pend = None
-    /\ pend' = [op |-> Ev.op, t |-> Ev.t, was |-> Ev.t \in active]
-    /\ IF Ev.op = "Add" /\ Ev.t \notin active
-       THEN active' = active \cup {Ev.t} /\ disc' = Put(disc, Ev.t, D0)
-       ELSE UNCHANGED <<active, disc>>
+    /\ St("inv") /\ ~Busy(Ev.c)
+    /\ LET overlapRemove == \E c \in DOMAIN pend : pend[c].op = "Remove" /\ pend[c].t = Ev.t
+           rec == [op |-> Ev.op, t |-> Ev.t, was |-> Ev.t \in active, rem |-> Ev.op = "Add" /\ overlapRemove, sw |-> FALSE,
+                   inc0 |-> Get(inc, Ev.t)]
+           \* a Remove beginning while an Add of the same target is in progress overlaps it too
+           marked == [c \in DOMAIN pend |-> IF Ev.op = "Remove" /\ pend[c].op = "Add" /\ pend[c].t = Ev.t
+                                            THEN [pend[c] EXCEPT !.rem = TRUE] ELSE pend[c]] IN
+       /\ pend' = Put(marked, Ev.c, rec)
+       /\ IF Ev.op = "Add" /\ Ev.t \notin active
+          THEN active' = active \cup {Ev.t} /\ disc' = Put(disc, Ev.t, D0) /\ inc' = Put(inc, Ev.t, Get(inc, Ev.t) + 1)
+          ELSE UNCHANGED <<active, disc, inc>>
+
+(* silent: the overlapping Remove has wound the old session down, the Add   *)
+(* begins a new incarnation of the target                                   *)
+TSwitch ==
+    /\ l <= Len(Trace)
+    /\ \E c \in DOMAIN pend :
+          /\ pend[c].op = "Add" /\ pend[c].was /\ pend[c].rem /\ ~pend[c].sw
+          /\ pend' = [pend EXCEPT ![c].sw = TRUE]
+          /\ disc' = Put(disc, pend[c].t, D0)
+          /\ inc' = Put(inc, pend[c].t, Get(inc, pend[c].t) + 1)
+    /\ UNCHANGED <<l, active>>
 
 TRet ==
-    /\ St("ret") /\ pend.op = Ev.op /\ pend.t = Ev.t
-    /\ Ev.res = (IF (Ev.op = "Add") = pend.was THEN "err" ELSE "ok")
-    /\ active' = IF Ev.op = "Remove" THEN active \ {Ev.t} ELSE active
-    /\ pend' = None
-    /\ UNCHANGED disc
+    /\ St("ret") /\ Busy(Ev.c) /\ pend[Ev.c].op = Ev.op /\ pend[Ev.c].t = Ev.t
+    /\ LET p == pend[Ev.c] IN
+       /\ Ev.res = (IF Ev.op = "Add" THEN (IF p.was /\ ~p.sw THEN "err" ELSE "ok")
+                    ELSE (IF p.was THEN "ok" ELSE "err"))
+       \* the Remove ends the incarnation it found; a newer one (an overlapping Add that took effect after it) stays
+       /\ active' = IF Ev.op = "Remove" /\ Get(inc, Ev.t) = p.inc0 THEN active \ {Ev.t} ELSE active
+    /\ pend' = Put(pend, Ev.c, None)
+    /\ UNCHANGED <<disc, inc>>
 
 TCb ==
     /\ St("cb")
@@ -47,14 +77,14 @@ TCb ==
     /\ LET d == DStep(disc[Ev.t], Ev.k, Ev.id) IN
        /\ d.q # "bad"
        /\ disc' = Put(disc, Ev.t, d)
-    /\ UNCHANGED <<active, pend>>
+    /\ UNCHANGED <<active, pend, inc>>
 
 (* scripted-server markers carry no obligation                              *)
-TSrv == St("srv") /\ UNCHANGED <<active, disc, pend>>
+TSrv == St("srv") /\ UNCHANGED <<active, disc, pend, inc>>
 
-TFinal == St("final") /\ active = {} /\ pend = None /\ UNCHANGED <<active, disc, pend>>
+TFinal == St("final") /\ active = {} /\ (\A c \in DOMAIN pend : ~Busy(c)) /\ UNCHANGED <<active, disc, pend, inc>>
 
-TNext == TReset \/ TInv \/ TRet \/ TCb \/ TSrv \/ TFinal
+TNext == TReset \/ TInv \/ TSwitch \/ TRet \/ TCb \/ TSrv \/ TFinal
 TSpec == TInit /\ [][TNext]_tvars
 
 Track == IF l > TLCGet(1) THEN TLCSet(1, l) ELSE TRUE
